@@ -187,6 +187,8 @@ def call_pyobj(ex, obj, args, kwargs, st, fr, n):
     if obj is _b.list and not args:
         return ex.val(st.alloc(HList(None, None)), st)
     if obj is _b.list and args:
+        if isinstance(args[0], VRef) and isinstance(st.heap[args[0].ref], HList) and st.heap[args[0].ref].seq is None:
+            return ex.val(st.alloc(HList(None, None)), st)
         s, et = as_seq(args[0], st)
         return ex.val(st.alloc(HList(et, s)), st)
     if obj is _b.set and not args:
@@ -539,6 +541,23 @@ def list_method(ex, ref, m, args, kwargs, st, fr):
         return ex.val(NONE, st)
     if m == 'copy':
         return ex.val(st.alloc(HList(h.etype, h.seq)), st)
+    if m == 'add':       # set.add on the list model of a set: append unless present
+        v = args[0]
+        if h.seq is None:
+            return list_method(ex, ref, 'append', args, kwargs, st, fr)
+        return ex.branch(z3.Contains(h.seq, z3.Unit(term_of(v))), st, lambda s: ex.val(NONE, s),
+                         lambda s: list_method(ex, ref, 'append', args, kwargs, s, fr))
+    if m == 'remove':
+        v = args[0]
+        if h.seq is None:
+            return ex.exc(KeyError, st)
+
+        def present(s):
+            h2 = s.heap[ref.ref]
+            h2.seq = ex.seq_remove(h2.seq, term_of(v), s)
+            h2.items = None
+            return ex.val(NONE, s)
+        return ex.branch(z3.Contains(h.seq, z3.Unit(term_of(v))), st, present, lambda s: ex.exc(KeyError, s))
     raise Unsupported('list method %s' % m)
 
 
